@@ -19,7 +19,7 @@ EXPLANATION = ('the format specifications of the three return branches of _forma
                'symbolically under the branch guard; the prior parser is compared with the inverse scaling; scalar views are checked against the operator their name denotes')
 LEVEL_TEXT = ('decides only: value and error are printed to the same decimal place in all three magnitude branches (symbolic in the exponent and the significance), the error mantissa scaling, '
               'the inverse scaling of the prior parser, prefix-only flags, and that comparisons/float/zero-test/plottable use exactly value and dvalue. Rounding carries of the float formatter are not decided.')
-TECHNIQUE = 'AST analysis of format specifications with sympy comparison of decimal counts; operator-name agreement rules'
+TECHNIQUE = 'AST analysis of format specifications with sympy comparison of decimal counts; small-domain evaluation of the extracted pure string functions (prior parser on printable strings, __format__ with a recording stub); operator-name agreement rules'
 
 F, S = sp.Symbol('fexp', integer=True), sp.Symbol('significance', integer=True, positive=True)
 
